@@ -6,12 +6,14 @@ import (
 	"fmt"
 	"github.com/openebs/jiva/sync/agent"
 	"io"
+	"net"
 	"net/http"
 	"net/http/httptest"
 	"os"
 	"path/filepath"
 	"runtime"
 	"strings"
+	"sync"
 	"sync/atomic"
 	"syscall"
 	"time"
@@ -46,6 +48,7 @@ type task struct {
 	gates    int
 	last     string
 	killed   bool
+	crashed  bool // the process that ran the (failed) task has exited and been started again
 	panicked string
 	depth    int32
 	goid     int64 // the goroutine that runs the task: only its own requests are gates
@@ -221,6 +224,31 @@ func (cl *cluster) serveAgent(n int, w http.ResponseWriter, req *http.Request) {
 	}
 	b, _ := io.ReadAll(req.Body)
 	json.Unmarshal(b, &in)
+	if in.ProcessType == "sync" && cl.cfg.RealAgent {
+		// jiva's REAL sync agent launches the transfer (process table, port allocator, exit-code bookkeeping); the ssync
+		// child is the harness binary re-executed (cmd/eb/ssync.go).  File names are made absolute (a production agent
+		// runs in its replica's directory); the receiver's host is not routable: every agent listens on the loopback.
+		body := map[string]interface{}{"processType": "sync", "port": in.Port}
+		if in.SrcFile == "" {
+			body["destfile"] = filepath.Join(cl.nodes[n].(*RealNode).dir, in.DestFile)
+		} else {
+			body["srcFile"] = filepath.Join(cl.nodes[n].(*RealNode).dir, in.SrcFile)
+			body["host"] = "127.0.0.1"
+			if (cl.failXfer || cl.killXfer) && strings.HasSuffix(in.SrcFile, ".img") {
+				fault := "exit1"
+				if cl.killXfer {
+					fault = "kill"
+				}
+				os.Setenv("VERIF_SSYNC_FAULT", fault) // inherited by the sender the agent starts for this request
+				cl.failXfer, cl.killXfer = false, false
+				cl.cnt["transfers_failed"]++
+				cl.ssyncFaultArmed = true
+			}
+		}
+		cl.cnt["real_agent_transfers"]++
+		cl.serveRealAgent(n, w, "POST", "/v1/processes", body)
+		return
+	}
 	p := &agentProc{id: len(cl.procs) + 1, node: n, destFile: in.DestFile, srcFile: in.SrcFile, port: in.Port, exit: -2}
 	cl.procs = append(cl.procs, p)
 	switch {
@@ -294,7 +322,12 @@ func (cl *cluster) serveRealAgent(n int, w http.ResponseWriter, method, path str
 	}
 	h := cl.agents[n]
 	if h == nil {
-		h = agent.NewRouter(agent.NewServer(9700+100*n, 9799+100*n))
+		span := 100
+		if cl.cfg.AgentPorts > 0 {
+			span = cl.cfg.AgentPorts
+		}
+		base := portBase() + 100*n
+		h = agent.NewRouter(agent.NewServer(base, base+span-1))
 		cl.agents[n] = h
 	}
 	var rd io.Reader
@@ -318,6 +351,41 @@ func (cl *cluster) serveRealAgent(n int, w http.ResponseWriter, method, path str
 		req.Header.Set("Content-Type", "application/json")
 	}
 	rec := httptest.NewRecorder()
+	var listening map[int]bool
+	if method == "POST" && body["processType"] == "sync" && body["srcFile"] == nil {
+		// a receiver whose sender has reported a complete transfer is on its way out: wait until it is gone (the agent's
+		// bookkeeping of it runs on another goroutine), so that the ports handed out do not depend on a race; a receiver
+		// whose sender died stays
+		span := 100
+		if cl.cfg.AgentPorts > 0 {
+			span = cl.cfg.AgentPorts
+		}
+		base := portBase() + 100*n
+		deadline := time.Now().Add(30 * time.Second)
+		for port := range cl.finishing {
+			if port < base || port >= base+span {
+				continue
+			}
+			for time.Now().Before(deadline) {
+				c, err := net.DialTimeout("tcp", fmt.Sprintf("127.0.0.1:%d", port), 100*time.Millisecond)
+				if err != nil && !cl.agentHolds(h, n, port) {
+					break
+				}
+				if err == nil {
+					c.Close()
+				}
+				time.Sleep(200 * time.Microsecond)
+			}
+			delete(cl.finishing, port)
+		}
+		listening = map[int]bool{}
+		for port := base; port < base+span && span <= 16; port++ {
+			if c, err := net.DialTimeout("tcp", fmt.Sprintf("127.0.0.1:%d", port), 100*time.Millisecond); err == nil {
+				c.Close()
+				listening[port] = true
+			}
+		}
+	}
 	if method == "POST" && cl.failSpawn {
 		// the agent cannot start the child at all (fork/exec fails: no file descriptor left): the soft limit is zero
 		// exactly while the agent's launch goroutine tries, i.e. until it has logged its failure
@@ -356,6 +424,70 @@ func (cl *cluster) serveRealAgent(n int, w http.ResponseWriter, method, path str
 	out := rec.Body.Bytes()
 	var m map[string]interface{}
 	if json.Unmarshal(out, &m) == nil && m["id"] != nil {
+		if method == "POST" && body["processType"] == "sync" {
+			if pf, ok := m["port"].(float64); ok && body["srcFile"] == nil {
+				if listening[int(pf)] && (cl.wants("c07") || cl.wants("c19")) {
+					cl.violate("agent", "port-of-a-live-receiver-handed-out", fmt.Sprintf("the sync agent of node %d handed out port %d for a new receiver although a receiver it started earlier (its sender died) is still listening there: the new receiver cannot bind and the next sender is served by the old one, into the old one's file", n, int(pf)))
+				}
+				cl.agentPorts = append(cl.agentPorts, int(pf)) // a receiver listens there (asked to quit at the end)
+				// the agent starts the child on its own goroutine: the answer is held back until the receiver listens (or
+				// has ended: it could not bind), so that what follows never races with a child that is still starting
+				id := fmt.Sprint(m["id"])
+				deadline := time.Now().Add(30 * time.Second)
+				for time.Now().Before(deadline) {
+					if c, err := net.DialTimeout("tcp", fmt.Sprintf("127.0.0.1:%d", int(pf)), 100*time.Millisecond); err == nil {
+						c.Close()
+						break
+					}
+					r2 := httptest.NewRecorder()
+					h.ServeHTTP(r2, httptest.NewRequest("GET", "http://"+ip(n)+":9504/v1/processes/"+id, nil))
+					var pm map[string]interface{}
+					if json.Unmarshal(r2.Body.Bytes(), &pm) == nil {
+						if ec, ok := pm["exitCode"].(float64); ok && ec != -2 {
+							break
+						}
+					}
+					time.Sleep(200 * time.Microsecond)
+				}
+			}
+			if cl.ssyncFaultArmed {
+				// the agent starts the child on its own goroutine: keep the fault in the environment until the process
+				// entry shows that the child has run (its exit code is no longer -2), then clear it
+				cl.ssyncFaultArmed = false
+				id := fmt.Sprint(m["id"])
+				deadline := time.Now().Add(30 * time.Second)
+				for time.Now().Before(deadline) {
+					r2 := httptest.NewRecorder()
+					h.ServeHTTP(r2, httptest.NewRequest("GET", "http://"+ip(n)+":9504/v1/processes/"+id, nil))
+					var pm map[string]interface{}
+					if json.Unmarshal(r2.Body.Bytes(), &pm) == nil {
+						if ec, ok := pm["exitCode"].(float64); ok && ec != -2 {
+							break
+						}
+					}
+					time.Sleep(200 * time.Microsecond)
+				}
+				os.Setenv("VERIF_SSYNC_FAULT", "")
+			}
+		}
+		if method == "POST" && body["processType"] == "sync" && body["srcFile"] != nil {
+			if cl.senderPort == nil {
+				cl.senderPort = map[string]int{}
+			}
+			if pf, ok := body["port"].(int); ok {
+				cl.senderPort[fmt.Sprintf("%d/%v", n, m["id"])] = pf
+			}
+		}
+		if method == "GET" {
+			if ec, ok := m["exitCode"].(float64); ok && ec == 0 {
+				if port, ok := cl.senderPort[fmt.Sprintf("%d/%v", n, m["id"])]; ok {
+					if cl.finishing == nil {
+						cl.finishing = map[int]bool{}
+					}
+					cl.finishing[port] = true // the transfer is complete: its receiver has been told to end
+				}
+			}
+		}
 		id := fmt.Sprint(m["id"])
 		m["id"] = "r" + id
 		m["links"] = map[string]string{"self": fmt.Sprintf("http://%s:9504/v1/processes/r%s", ip(n), id)}
@@ -365,12 +497,81 @@ func (cl *cluster) serveRealAgent(n int, w http.ResponseWriter, method, path str
 	w.Write(out)
 }
 
+// agentHolds: the agent of node n still lists a running process on port.
+func (cl *cluster) agentHolds(h http.Handler, n, port int) bool {
+	r := httptest.NewRecorder()
+	h.ServeHTTP(r, httptest.NewRequest("GET", "http://"+ip(n)+":9504/v1/processes", nil))
+	var l struct {
+		Data []struct {
+			Port     int    `json:"port"`
+			ExitCode int    `json:"exitCode"`
+			SrcFile  string `json:"srcFile"`
+		} `json:"data"`
+	}
+	if json.Unmarshal(r.Body.Bytes(), &l) != nil {
+		return false
+	}
+	for _, p := range l.Data {
+		if p.Port == port && p.SrcFile == "" && p.ExitCode == -2 {
+			return true
+		}
+	}
+	return false
+}
+
+// portBase: the real sync agents of this worker process hand out real TCP ports on the loopback interface; every
+// worker process takes its own block of 400 ports (a lock file held for the life of the process).
+var portBaseOnce sync.Once
+var portBaseVal int
+var portLockFile *os.File // kept referenced: a collected *os.File closes its descriptor and drops the lock
+
+func portBase() int {
+	portBaseOnce.Do(func() {
+		os.MkdirAll("/tmp/verif-portlocks", 0777)
+		for k := 0; k < 90; k++ {
+			f, err := os.OpenFile(fmt.Sprintf("/tmp/verif-portlocks/%d.lock", k), os.O_CREATE|os.O_RDWR, 0666)
+			if err != nil {
+				continue
+			}
+			if syscall.Flock(int(f.Fd()), syscall.LOCK_EX|syscall.LOCK_NB) == nil {
+				portBaseVal = 21000 + 400*k // the descriptor stays open: the lock is held until the process ends
+				portLockFile = f
+				return
+			}
+			f.Close()
+		}
+		portBaseVal = 21000 + 400*90
+	})
+	return portBaseVal
+}
+
+// stopReceivers asks every ssync receiver the real agents of this execution started to quit (a receiver whose sender
+// died lives on, as in production).
+func (cl *cluster) stopReceivers() {
+	for _, p := range cl.agentPorts {
+		// until nothing listens on the port any more: the next execution of this worker hands the same ports out again
+		for i := 0; i < 2000; i++ {
+			c, err := net.DialTimeout("tcp", fmt.Sprintf("127.0.0.1:%d", p), 200*time.Millisecond)
+			if err != nil {
+				break
+			}
+			fmt.Fprintln(c, `{"quit":true}`)
+			c.Close()
+			time.Sleep(500 * time.Microsecond)
+		}
+	}
+	cl.agentPorts = nil
+}
+
 type foldStub struct{}
 
 func (foldStub) UpdateFoldFileProgress(int, bool, error) {}
 
 // transferFile makes dst equal to src the way ssync does: same size, same data where src has data, a hole where src
 // has a hole; it writes into the existing destination inode (a replica may hold it open).
+// TransferFile is the hole-preserving copy into the existing destination inode (for the ssync stand-in child).
+func TransferFile(src, dst string) error { return transferFile(src, dst) }
+
 func transferFile(src, dst string) error {
 	if !strings.HasSuffix(src, ".img") {
 		b, err := os.ReadFile(src)
@@ -453,6 +654,15 @@ func (cl *cluster) startTaskOpt(kind string, node int, gateAll bool, body func()
 			}
 		}()
 		t.err = body()
+		if d := os.Getenv("VERIF_DEBUG_DIR"); d != "" && t.err != nil { // debugging aid
+			if f, e := os.OpenFile(filepath.Join(d, "task-errors.log"), os.O_CREATE|os.O_APPEND|os.O_WRONLY, 0644); e == nil {
+				logMu.Lock()
+				l := logBuf.String()
+				logMu.Unlock()
+				fmt.Fprintf(f, "pid %d %s node %d: %v\n%s\n----\n", os.Getpid(), kind, node, t.err, tailStr(l, 1500))
+				f.Close()
+			}
+		}
 		t.report <- "done"
 	}()
 	cl.awaitTask(t)
